@@ -174,3 +174,51 @@ func VH_C20_addr() {
 	}
 	verifC20Check("addr", verifC20Local(raw), db, info, err)
 }
+
+// address texts as a non-IP net.Addr implementation may print them (a portless IPv6 text, too many
+// colons, missing brackets ...): what cannot be split into host and port, or whose host is not an
+// IP address, is XA and is never shown to the database; the rest is classified by its IP
+func VH_C20_addr_texts() {
+	type tc struct {
+		text     string
+		parsable bool
+		raw      []byte
+	}
+	v6 := func(hi uint16, lo uint16) []byte {
+		b := make([]byte, 16)
+		b[0], b[1], b[2], b[3] = 0x20, 0x01, 0x0d, 0xb8
+		b[12], b[13] = byte(hi>>8), byte(hi)
+		b[14], b[15] = byte(lo>>8), byte(lo)
+		return b
+	}
+	ll := make([]byte, 16)
+	ll[0], ll[1], ll[15] = 0xfe, 0x80, 1
+	cases := []tc{
+		{"2001:db8::5:1", false, nil},
+		{"2001:db8::1:443", false, nil},
+		{"fe80::1:2", false, nil},
+		{"::1:8080", false, nil},
+		{"2001:db8:0:0:0:0:0:5:443", false, nil},
+		{"1.2.3.4:80:90", false, nil},
+		{"[::1]", false, nil},
+		{"[::1]x:80", false, nil},
+		{"[::1", false, nil},
+		{"1.2.3.4", false, nil},
+		{":80", false, nil},
+		{"", false, nil},
+		{"[2001:db8::5]:1", true, v6(0, 5)},
+		{"[2001:db8::5:1]:443", true, v6(5, 1)},
+		{"[fe80::1%eth0]:80", true, ll},
+		{"93.184.216.34:443", true, []byte{93, 184, 216, 34}},
+	}
+	c := cases[verifChoice("text", len(cases))]
+	db := verifC20DB()
+	info, err := GetIPInfoFromAddr(db, verifBadAddr{c.text})
+	if !c.parsable {
+		verifAssert("C20.texts.unparsable-is-XA", info.CountryCode == "XA" && err != nil)
+		verifAssert("C20.texts.unparsable-not-sent-to-db", db.consulted == 0)
+		verifReach("C20.texts.XA", true)
+		return
+	}
+	verifC20Check("texts", verifC20Local(c.raw), db, info, err)
+}
